@@ -122,30 +122,30 @@ theorem idOracle_one_not_exact : ¬ Exact (idOracle (α := Int) 1) := by
 /-! ### (6) concrete instances -/
 
 /-- a concrete order-3 integer tensor on `N = [2,3,2]`, given through its flat index -/
-def exA : Nat → Int := fun j => (j : Int) * j - 3 * j + 1
+def dc_exA : Nat → Int := fun j => (j : Int) * j - 3 * j + 1
 
-example : full (toTT (idOracle 100) [2, 3, 2] exA) (tIdx [1, 2, 1]) = exA 11 := by decide
-example : full (toTT (idOracle 100) [2, 3, 2] exA) (tIdx [0, 1, 1]) = 1 := by decide
-example : full (toTT (idOracle 100) [2, 3, 2] exA) (tIdx [1, 0, 0]) = 19 := by decide
+example : full (toTT (idOracle 100) [2, 3, 2] dc_exA) (tIdx [1, 2, 1]) = dc_exA 11 := by decide
+example : full (toTT (idOracle 100) [2, 3, 2] dc_exA) (tIdx [0, 1, 1]) = 1 := by decide
+example : full (toTT (idOracle 100) [2, 3, 2] dc_exA) (tIdx [1, 0, 0]) = 19 := by decide
 
 /-- all 12 entries at once -/
 example : ∀ i0 < 2, ∀ i1 < 3, ∀ i2 < 2,
-    full (toTT (idOracle 100) [2, 3, 2] exA) (tIdx [i0, i1, i2]) = exA (flatIdx [2, 3, 2] [i0, i1, i2]) := by
+    full (toTT (idOracle 100) [2, 3, 2] dc_exA) (tIdx [i0, i1, i2]) = dc_exA (flatIdx [2, 3, 2] [i0, i1, i2]) := by
   decide
 
 /-- the general theorem instantiated (non-vacuity of the hypotheses) -/
-example : full (toTT (dc_idFull) [2, 3, 2] exA) (tIdx [1, 2, 1]) = exA (flatIdx [2, 3, 2] [1, 2, 1]) :=
-  toTT_exact dc_idFull idFull_exact [2, 3, 2] exA [1, 2, 1] (by decide)
+example : full (toTT (dc_idFull) [2, 3, 2] dc_exA) (tIdx [1, 2, 1]) = dc_exA (flatIdx [2, 3, 2] [1, 2, 1]) :=
+  toTT_exact dc_idFull idFull_exact [2, 3, 2] dc_exA [1, 2, 1] (by decide)
     (inRange_of_get _ _ rfl (by decide))
 
-example : full (toTT (idOracle 100) [2, 3, 2] exA) (tIdx [1, 2, 1]) = exA (flatIdx [2, 3, 2] [1, 2, 1]) :=
-  toTT_idOracle_exact 100 [2, 3, 2] exA [1, 2, 1] (by decide) (inRange_of_get _ _ rfl (by decide)) (by decide)
+example : full (toTT (idOracle 100) [2, 3, 2] dc_exA) (tIdx [1, 2, 1]) = dc_exA (flatIdx [2, 3, 2] [1, 2, 1]) :=
+  toTT_idOracle_exact 100 [2, 3, 2] dc_exA [1, 2, 1] (by decide) (inRange_of_get _ _ rfl (by decide)) (by decide)
 
 /-- truncation (`idOracle 1`, i.e. every rank cut to 1) does change the tensor: the exactness hypothesis
 is not vacuous -/
-example : full (toTT (idOracle 1) [2, 3, 2] exA) (tIdx [1, 2, 1]) ≠ exA 11 := by decide
+example : full (toTT (idOracle 1) [2, 3, 2] dc_exA) (tIdx [1, 2, 1]) ≠ dc_exA 11 := by decide
 
-example : WF (toTT (idOracle 1) [2, 3, 2] exA) 1 := toTT_WF _ _ _
-example : modesM (toTT (idOracle 1) [2, 3, 2] exA) = [2, 3, 2] := toTT_modes _ _ _
+example : WF (toTT (idOracle 1) [2, 3, 2] dc_exA) 1 := toTT_WF _ _ _
+example : modesM (toTT (idOracle 1) [2, 3, 2] dc_exA) = [2, 3, 2] := toTT_modes _ _ _
 
 end TT.C01
